@@ -173,6 +173,8 @@ func validKinds(c ext) []string {
 		return []string{probe.AccessRefuse, probe.AccessRelease}
 	case "memcall":
 		return []string{"err"}
+	case "kms":
+		return []string{"err", "delay", "cancel"}
 	default:
 		return []string{"err", "delay"}
 	}
@@ -206,6 +208,10 @@ func (e *env) arm(b bases, fs []fault) {
 		case "ms":
 			e.w.MS.Faults[b.ms+f.Idx] = f.Kind
 		case "kms":
+			if f.Kind == "cancel" {
+				e.w.KMS.Cancels[b.kms+f.Idx] = true
+				continue
+			}
 			e.w.KMS.Faults[b.kms+f.Idx] = true
 		case "aead":
 			e.w.AEAD.Faults[b.aead+f.Idx] = true
@@ -224,6 +230,7 @@ func (e *env) arm(b bases, fs []fault) {
 func (e *env) disarm() {
 	e.w.MS.Faults = map[int]string{}
 	e.w.KMS.Faults = map[int]bool{}
+	e.w.KMS.Cancels = map[int]bool{}
 	e.w.AEAD.Faults = map[int]bool{}
 	e.w.MS.Delays = map[int]time.Duration{}
 	e.w.KMS.Delays = map[int]time.Duration{}
@@ -401,6 +408,12 @@ func execute(sc scenario, cfgName, op string, fs []fault) (res result) {
 		pt  []byte
 		err error
 	)
+	// the operation under test runs with the caller's own cancellable context ("cancel" faults cancel it while an
+	// external call is in flight)
+	opCtx, opCancel := context.WithCancel(context.Background())
+	defer opCancel()
+	cancelled0 := e.w.KMS.Cancelled
+	e.w.KMS.OnCancel = opCancel
 	func() {
 		defer func() {
 			if p := recover(); p != nil {
@@ -410,19 +423,21 @@ func execute(sc scenario, cfgName, op string, fs []fault) (res result) {
 		}()
 		switch op {
 		case "enc":
-			drr, err = e.s.Encrypt(context.Background(), payload)
+			drr, err = e.s.Encrypt(opCtx, payload)
 		case "dec":
 			p0 := *decTarget
-			pt, err = e.s.Decrypt(context.Background(), *world.CopyDRR(p0.drr))
+			pt, err = e.s.Decrypt(opCtx, *world.CopyDRR(p0.drr))
 			if err == nil && !bytes.Equal(pt, p0.payload) {
 				res.c02 = append(res.c02, verdict{"decrypt-wrong-bytes", "decrypt returned other bytes under faults"})
 			}
 		}
 	}()
 	e.w.Led.SetOp("")
+	e.w.KMS.OnCancel = nil
 	res.opErr = err
 	res.trace = e.trace(b)
 	e.disarm()
+	res.fired += e.w.KMS.Cancelled - cancelled0
 	for _, c := range e.w.MS.CallsFrom(b.ms) {
 		if c.Fault != "" {
 			res.fired++
